@@ -293,6 +293,14 @@ func (t *tr2) call(x *ast.CallExpr) (string, string) {
 					return zeroOfKind(k), k
 				}
 			}
+		case "maxClockTimeForEntries":
+			if len(x.Args) == 2 {
+				a, ka := t.expr(x.Args[0])
+				b, kb := t.expr(x.Args[1])
+				if ka == "ents" && kb == "int" {
+					return "(maxClockTimeForEntries " + a + " " + b + ")", "int"
+				}
+			}
 		case "maxInt", "minInt":
 			if len(x.Args) == 2 {
 				a, ka := t.expr(x.Args[0])
@@ -316,6 +324,36 @@ func (t *tr2) call(x *ast.CallExpr) (string, string) {
 	if s == "entry.NewOrderedMap" && len(x.Args) == 0 {
 		return "([] : List Entry)", "omap"
 	}
+	if (s == "entry.FindHeads" || s == "entry.NewOrderedMapFromEntries") && len(x.Args) == 1 {
+		// FindHeads is translated itself (GenHeads); NewOrderedMapFromEntries is the model's omFromList (it also
+		// skips nil and undefined entries: slices of the subset hold neither, see the nil-marking loop)
+		a, ka := t.expr(x.Args[0])
+		if ka == "omap" || ka == "ents" {
+			if s == "entry.FindHeads" {
+				return "(findHeads " + a + ")", "ents"
+			}
+			return "(omFromList " + a + ")", "omap"
+		}
+	}
+	if t.recv != "" && s == t.recv+".values" && len(x.Args) == 0 {
+		// the linearisation of the current state: a parameter (IPFSLog.values = traverse from the heads, reversed)
+		e1, _ := t.expr(&ast.SelectorExpr{X: &ast.Ident{Name: t.recv}, Sel: &ast.Ident{Name: "Entries"}})
+		h1, _ := t.expr(&ast.SelectorExpr{X: &ast.Ident{Name: t.recv}, Sel: &ast.Ident{Name: "heads"}})
+		return "(valuesOf " + e1 + " " + h1 + ")", "omap"
+	}
+	if t.recv != "" && (s == t.recv+".Clock.GetTime" || s == t.recv+".Clock.GetID") && len(x.Args) == 0 {
+		if s == t.recv+".Clock.GetTime" {
+			return leanName(t.recv + ".ClockTime"), "int"
+		}
+		return leanName(t.recv + ".ClockID"), "bytes"
+	}
+	if id, ok := x.Fun.(*ast.Ident); ok && id.Name == "maxClockTimeForEntries" && len(x.Args) == 2 {
+		a, ka := t.expr(x.Args[0])
+		b, kb := t.expr(x.Args[1])
+		if ka == "ents" && kb == "int" {
+			return "(maxClockTimeForEntries " + a + " " + b + ")", "int"
+		}
+	}
 	sel, ok := x.Fun.(*ast.SelectorExpr)
 	if !ok {
 		return t.fail(x, "call"), ""
@@ -325,6 +363,9 @@ func (t *tr2) call(x *ast.CallExpr) (string, string) {
 	switch r := sel.X.(type) {
 	case *ast.CallExpr:
 		rs := selChain(r.Fun)
+		if !(strings.HasSuffix(rs, ".GetHash") || strings.HasSuffix(rs, ".GetClock")) {
+			recv, kr = t.expr(r)
+		}
 		if strings.HasSuffix(rs, ".GetHash") || strings.HasSuffix(rs, ".GetClock") {
 			inner, ki := t.expr(r.Fun.(*ast.SelectorExpr).X)
 			if ki == "optentry" {
@@ -361,6 +402,13 @@ func (t *tr2) call(x *ast.CallExpr) (string, string) {
 	}
 	if sel.Sel.Name == "Slice" && kr == "omap" && len(x.Args) == 0 {
 		return recv, "ents"
+	}
+	if sel.Sel.Name == "Merge" && kr == "omap" && len(x.Args) == 1 {
+		// OrderedMap.Merge: the model's omMerge (not translated: tied by the core stream)
+		a, ka := t.expr(x.Args[0])
+		if ka == "omap" {
+			return "(omMerge " + recv + " " + a + ")", "omap"
+		}
 	}
 	if s == "entry.NewOrderedMap" && len(x.Args) == 0 {
 		return "([] : List Entry)", "omap"
@@ -424,6 +472,13 @@ func hasTerminator(stmts []ast.Stmt) bool {
 				found = true
 			case *ast.BranchStmt:
 				found = true
+			case *ast.AssignStmt:
+				// xs = ys[a:b] may panic: an exit (`none`)
+				if len(x.Rhs) == 1 {
+					if _, ok := x.Rhs[0].(*ast.SliceExpr); ok {
+						found = true
+					}
+				}
 			}
 			return true
 		})
@@ -444,7 +499,12 @@ func assignedOuter(stmts []ast.Stmt) []string {
 		}
 		if sel, ok := e.(*ast.SelectorExpr); ok {
 			if id, ok := sel.X.(*ast.Ident); ok {
-				set[id.Name+"."+sel.Sel.Name] = true
+				if sel.Sel.Name == "Clock" {
+					set[id.Name+".ClockID"] = true
+					set[id.Name+".ClockTime"] = true
+				} else {
+					set[id.Name+"."+sel.Sel.Name] = true
+				}
 			}
 		}
 	}
@@ -703,18 +763,33 @@ func (t *tr2) block(stmts []ast.Stmt, fall string, inLoop bool) string {
 			}
 		}
 		if sel, ok := c.Fun.(*ast.SelectorExpr); ok && sel.Sel.Name == "Set" && len(c.Args) == 2 {
-			// m.Set(e.GetHash().String(), e) on an ordered map
-			if id, ok := sel.X.(*ast.Ident); ok && t.kinds[id.Name] == "omap" {
+			// m.Set(e.GetHash().String(), e) on an ordered map (a local, or a field of the receiver)
+			key := ""
+			if id, ok := sel.X.(*ast.Ident); ok {
+				key = id.Name
+			} else if fs, ok := sel.X.(*ast.SelectorExpr); ok {
+				if r, ok := fs.X.(*ast.Ident); ok && r.Name == t.recv && t.recv != "" {
+					key = r.Name + "." + fs.Sel.Name
+				}
+			}
+			if key != "" && t.kinds[key] == "omap" {
 				k, kk := t.expr(c.Args[0])
 				v, kv := t.expr(c.Args[1])
 				if kk == "hash" && kv == "entry" && k == v+".hash" {
-					return let(leanName(id.Name), "(omSet "+leanName(id.Name)+" "+v+")")
+					return let(leanName(key), "(omSet "+leanName(key)+" "+v+")")
 				}
 				if kk == "hash" && kv == "entry" {
-					return let(leanName(id.Name), "(omSetK "+leanName(id.Name)+" "+k+" "+v+")")
+					return let(leanName(key), "(omSetK "+leanName(key)+" "+k+" "+v+")")
 				}
 			}
-			return t.fail(st, "Set on an ordered map with a key that is not the entry's hash")
+			if key != "" && t.kinds[key] == "set" {
+				// an index of which only the key set is ever read (IPFSLog.Next)
+				k, kk := t.expr(c.Args[0])
+				if _, kv := t.expr(c.Args[1]); kk == "hash" && kv == "entry" {
+					return let(leanName(key), "(setInsert "+leanName(key)+" "+k+")")
+				}
+			}
+			return t.fail(st, "Set on something that is not an ordered map of the subset")
 		}
 		switch selChain(c.Fun) {
 		case "sorting.Sort":
@@ -824,6 +899,10 @@ func (t *tr2) assign(x *ast.AssignStmt, rest []ast.Stmt, fall string, inLoop boo
 			k, kk := t.expr(c.Args[0])
 			v, okv := x.Lhs[0].(*ast.Ident)
 			o, oko := x.Lhs[1].(*ast.Ident)
+			if km == "set" && kk == "hash" && okv && oko && v.Name == "_" && o.Name != "_" {
+				t.kinds[o.Name] = "bool"
+				return "(let " + leanName(o.Name) + " := (" + m + ".contains " + k + "); " + cont() + ")"
+			}
 			if km != "omap" || kk != "hash" || !okv || !oko {
 				return t.fail(x, "Get on something that is not an ordered map")
 			}
@@ -894,6 +973,40 @@ func (t *tr2) assign(x *ast.AssignStmt, rest []ast.Stmt, fall string, inLoop boo
 			return "(let " + leanName(mid.Name) + " := (mapSet " + m + " " + k + " " + v + ");\n    " + cont() + ")"
 		}
 		return t.fail(x, "map write")
+	}
+	// l.Clock = entry.NewLamportClock(id, time): the clock is its two components
+	if sel, isSel := x.Lhs[0].(*ast.SelectorExpr); isSel && x.Tok == token.ASSIGN && src(t.fset, sel) == t.recv+".Clock" && t.recv != "" {
+		if c, ok := x.Rhs[0].(*ast.CallExpr); ok && selChain(c.Fun) == "entry.NewLamportClock" && len(c.Args) == 2 {
+			a, ka := t.expr(c.Args[0])
+			b, kb := t.expr(c.Args[1])
+			if ka == "bytes" && kb == "int" {
+				return "(let " + leanName(t.recv+".ClockID") + " := " + a + "; (let " + leanName(t.recv+".ClockTime") + " := " + b + "; " + cont() + "))"
+			}
+		}
+		return t.fail(x, "clock assignment")
+	}
+	// xs = ys[a:b]  (not in return position): `none` when Go would panic
+	if sl, isSl := x.Rhs[0].(*ast.SliceExpr); isSl && t.partial && !sl.Slice3 {
+		if id, ok := x.Lhs[0].(*ast.Ident); ok {
+			xs, kx := t.expr(sl.X)
+			if kx == "ents" || kx == "cids" {
+				lo, hi := "(0 : Int)", "("+xs+".length : Int)"
+				okb := true
+				if sl.Low != nil {
+					v, k := t.expr(sl.Low)
+					lo, okb = v, okb && k == "int"
+				}
+				if sl.High != nil {
+					v, k := t.expr(sl.High)
+					hi, okb = v, okb && k == "int"
+				}
+				if okb && (x.Tok == token.DEFINE || t.kinds[id.Name] == kx) {
+					t.kinds[id.Name] = kx
+					return "(match (slice? " + xs + " " + lo + " " + hi + ") with | none => none | some " + leanName(id.Name) + " => " + cont() + ")"
+				}
+			}
+		}
+		return t.fail(x, "slice assignment")
 	}
 	id, ok := x.Lhs[0].(*ast.Ident)
 	if sel, isSel := x.Lhs[0].(*ast.SelectorExpr); isSel && !ok {
@@ -989,8 +1102,8 @@ func (t *tr2) ifStmt(x *ast.IfStmt, rest []ast.Stmt, fall string, inLoop bool) s
 	}
 	// exits on some paths only: the continuation is duplicated into both branches, provided no name
 	// declared at the top of a branch is visible to it
-	if len(els) == 0 || !declaresAny(els) {
-		if !declaresAny(body) {
+	if !captures(body, rest) && !captures(els, rest) {
+		{
 			saved := t.saveKinds()
 			th := t.block(append(append([]ast.Stmt{}, body...), rest...), fall, inLoop)
 			t.kinds = saved
@@ -1092,6 +1205,52 @@ func (t *tr2) loop(list string, elemName, elemKind string, body []ast.Stmt, rest
 	return "(let " + tup + " := (" + list + ").foldl (fun " + tup + " " + leanName(elemName) + " =>\n    " + b + ") " + tup + ";\n    " + t.block(rest, fall, inLoop) + ")"
 }
 
+// captures: a name declared at the top of `branch` is used in `rest` (appending rest to the branch would then
+// make the declaration visible to it)
+func captures(branch, rest []ast.Stmt) bool {
+	declared := map[string]bool{}
+	for _, s := range branch {
+		switch x := s.(type) {
+		case *ast.AssignStmt:
+			if x.Tok == token.DEFINE {
+				for _, l := range x.Lhs {
+					if id, ok := l.(*ast.Ident); ok {
+						declared[id.Name] = true
+					}
+				}
+			}
+		case *ast.DeclStmt:
+			if gd, ok := x.Decl.(*ast.GenDecl); ok {
+				for _, sp := range gd.Specs {
+					if vs, ok := sp.(*ast.ValueSpec); ok {
+						for _, n := range vs.Names {
+							declared[n.Name] = true
+						}
+					}
+				}
+			}
+		}
+	}
+	hit := false
+	var walk func(n ast.Node)
+	walk = func(root ast.Node) {
+		ast.Inspect(root, func(n ast.Node) bool {
+			if sel, ok := n.(*ast.SelectorExpr); ok {
+				walk(sel.X) // not the field name
+				return false
+			}
+			if id, ok := n.(*ast.Ident); ok && declared[id.Name] {
+				hit = true
+			}
+			return true
+		})
+	}
+	for _, s := range rest {
+		walk(s)
+	}
+	return hit
+}
+
 func declaresAny(stmts []ast.Stmt) bool {
 	for _, s := range stmts {
 		switch x := s.(type) {
@@ -1122,7 +1281,77 @@ func hasReturn(stmts []ast.Stmt) bool {
 	return found
 }
 
+// nilMarking: `for idx, e := range xs { if c1 { xs[idx] = nil }; if c2 { xs[idx] = nil } … }` where xs is afterwards only
+// handed to entry.NewOrderedMapFromEntries (which skips nil entries)  →  xs := xs.filter (fun e => !c1 && !c2 …)
+func (t *tr2) nilMarking(x *ast.RangeStmt, rest []ast.Stmt, fall string, inLoop bool) (string, bool) {
+	ki, ok1 := x.Key.(*ast.Ident)
+	ve, ok2 := x.Value.(*ast.Ident)
+	xs, ok3 := x.X.(*ast.Ident)
+	if !ok1 || !ok2 || !ok3 || ki.Name == "_" || x.Tok != token.DEFINE || t.kinds[xs.Name] != "ents" || len(x.Body.List) == 0 {
+		return "", false
+	}
+	var conds []string
+	saved := t.saveKinds()
+	t.kinds[ve.Name] = "entry"
+	for _, st := range x.Body.List {
+		ifs, ok := st.(*ast.IfStmt)
+		if !ok || ifs.Else != nil || len(ifs.Body.List) != 1 || src(t.fset, ifs.Body.List[0]) != xs.Name+"["+ki.Name+"] = nil" {
+			t.kinds = saved
+			return "", false
+		}
+		// the condition, possibly with an initialiser `_, ok := m[k]` / `_, ok := m.Get(k)`
+		pre := ""
+		if ifs.Init != nil {
+			as, ok := ifs.Init.(*ast.AssignStmt)
+			if !ok {
+				t.kinds = saved
+				return t.fail(ifs, "nil-marking loop: initialiser"), true
+			}
+			marker := "@@COND@@"
+			y := &ast.ExprStmt{X: &ast.Ident{Name: marker}}
+			_ = y
+			// translate the initialiser in front of a placeholder and cut the placeholder out again
+			w := t.assign(as, nil, "@@HOLE@@", true)
+			if !strings.Contains(w, "@@HOLE@@") {
+				t.kinds = saved
+				return t.fail(ifs, "nil-marking loop: initialiser"), true
+			}
+			pre = w
+		}
+		c, kc := t.expr(ifs.Cond)
+		if kc != "bool" {
+			t.kinds = saved
+			return t.fail(ifs.Cond, "nil-marking loop: condition"), true
+		}
+		if pre != "" {
+			c = strings.Replace(pre, "@@HOLE@@", c, 1)
+		}
+		conds = append(conds, "(!"+c+")")
+	}
+	t.kinds = saved
+	// afterwards xs may only feed NewOrderedMapFromEntries
+	okUse := true
+	for _, st := range rest {
+		ast.Inspect(st, func(n ast.Node) bool {
+			if c, ok := n.(*ast.CallExpr); ok && selChain(c.Fun) == "entry.NewOrderedMapFromEntries" && len(c.Args) == 1 && src(t.fset, c.Args[0]) == xs.Name {
+				return false
+			}
+			if id, ok := n.(*ast.Ident); ok && id.Name == xs.Name {
+				okUse = false
+			}
+			return true
+		})
+	}
+	if !okUse {
+		return t.fail(x, "nil-marked slice used other than through NewOrderedMapFromEntries"), true
+	}
+	return "(let " + leanName(xs.Name) + " := (" + leanName(xs.Name) + ").filter (fun " + leanName(ve.Name) + " => " + strings.Join(conds, " && ") + "); " + t.block(rest, fall, inLoop) + ")", true
+}
+
 func (t *tr2) rangeStmt(x *ast.RangeStmt, rest []ast.Stmt, fall string, inLoop bool) string {
+	if r, ok := t.nilMarking(x, rest, fall, inLoop); ok {
+		return r
+	}
 	if _, ok := x.Key.(*ast.Ident); !ok || x.Tok != token.DEFINE {
 		// (an index variable stays unknown to the translation: any translated use of it fails)
 		return t.fail(x, "range with an index")
@@ -1275,19 +1504,14 @@ func uniquifyIfInits(fd *ast.FuncDecl) {
 			}
 			n++
 			old, fresh := id.Name, fmt.Sprintf("%s%d", id.Name, n)
-			rename := func(root ast.Node) {
+			var rename func(root ast.Node)
+			rename = func(root ast.Node) {
 				if root == nil {
 					return
 				}
 				ast.Inspect(root, func(m ast.Node) bool {
 					if sel, ok := m.(*ast.SelectorExpr); ok {
-						// not the field name
-						ast.Inspect(sel.X, func(k ast.Node) bool {
-							if i, ok := k.(*ast.Ident); ok && i.Name == old {
-								i.Name = fresh
-							}
-							return true
-						})
+						rename(sel.X) // not the field name
 						return false
 					}
 					if i, ok := m.(*ast.Ident); ok && i.Name == old {
@@ -1321,39 +1545,7 @@ func usesSlicing(fd *ast.FuncDecl) bool {
 }
 
 func (t *tr2) funcDecl(fd *ast.FuncDecl, name string) string {
-	uniquifyIfInits(fd)
-	t.declPos = map[string]token.Pos{}
-	note := func(id *ast.Ident) {
-		if _, ok := t.declPos[id.Name]; !ok && id.Name != "_" {
-			t.declPos[id.Name] = id.Pos()
-		}
-	}
-	for _, f := range fd.Type.Params.List {
-		for _, n := range f.Names {
-			note(n)
-		}
-	}
-	ast.Inspect(fd.Body, func(n ast.Node) bool {
-		switch x := n.(type) {
-		case *ast.AssignStmt:
-			if x.Tok == token.DEFINE {
-				for _, l := range x.Lhs {
-					if id, ok := l.(*ast.Ident); ok {
-						note(id)
-					}
-				}
-			}
-		case *ast.ValueSpec:
-			for _, id := range x.Names {
-				note(id)
-			}
-		case *ast.RangeStmt:
-			if id, ok := x.Value.(*ast.Ident); ok {
-				note(id)
-			}
-		}
-		return true
-	})
+	t.prepare(fd)
 	t.kinds = map[string]string{}
 	t.subst = map[string]string{}
 	t.loops = nil
@@ -1459,6 +1651,104 @@ func (t *tr2) funcDecl(fd *ast.FuncDecl, name string) string {
 	return strings.Join(t.loops, "\n") + fmt.Sprintf("def %s %s%s : %s :=\n  %s\n", name, fuel, strings.Join(ps, " "), ret, body)
 }
 
+func (t *tr2) prepare(fd *ast.FuncDecl) {
+	uniquifyIfInits(fd)
+	t.declPos = map[string]token.Pos{}
+	note := func(id *ast.Ident) {
+		if _, ok := t.declPos[id.Name]; !ok && id.Name != "_" {
+			t.declPos[id.Name] = id.Pos()
+		}
+	}
+	for _, f := range fd.Type.Params.List {
+		for _, n := range f.Names {
+			note(n)
+		}
+	}
+	ast.Inspect(fd.Body, func(n ast.Node) bool {
+		switch x := n.(type) {
+		case *ast.AssignStmt:
+			if x.Tok == token.DEFINE {
+				for _, l := range x.Lhs {
+					if id, ok := l.(*ast.Ident); ok {
+						note(id)
+					}
+				}
+			}
+		case *ast.ValueSpec:
+			for _, id := range x.Names {
+				note(id)
+			}
+		case *ast.RangeStmt:
+			if id, ok := x.Value.(*ast.Ident); ok {
+				note(id)
+			}
+		}
+		return true
+	})
+}
+
+// regionDecl translates the tail of IPFSLog.Join: the statements after the hook "join.publish" up to the final
+// return — what a merge does to the log once its candidates are admitted.  The fields of the log it reads
+// and writes are parameters and results: Entries and heads (ordered maps), Next (only its key set is ever
+// read), the clock (id and time); `l.values()` is the parameter valuesOf applied to the current entries and heads.
+func (t *tr2) regionDecl(fd *ast.FuncDecl, name string, marker string) string {
+	t.prepare(fd)
+	t.kinds = map[string]string{}
+	t.subst = map[string]string{}
+	t.loops = nil
+	t.usesFuel = false
+	t.fn = name
+	t.brk = ""
+	t.noResult = ""
+	t.partial = true
+	if fd.Recv == nil || len(fd.Recv.List) != 1 || len(fd.Recv.List[0].Names) != 1 {
+		return t.fail(fd, "region of a function without receiver")
+	}
+	t.recv = fd.Recv.List[0].Names[0].Name
+	start := -1
+	for i, st := range fd.Body.List {
+		if es, ok := st.(*ast.ExprStmt); ok && strings.Contains(src(t.fset, es), marker) {
+			start = i + 1
+		}
+	}
+	n := len(fd.Body.List)
+	if start < 0 || n == 0 {
+		return t.fail(fd, "region marker not found")
+	}
+	if _, ok := fd.Body.List[n-1].(*ast.ReturnStmt); !ok {
+		return t.fail(fd, "region does not end in the function's return")
+	}
+	region := fd.Body.List[start : n-1]
+	r := t.recv
+	fields := []struct{ key, kind string }{{r + ".Entries", "omap"}, {r + ".Next", "set"}, {r + ".heads", "omap"}, {r + ".ClockID", "bytes"}, {r + ".ClockTime", "int"}}
+	ps := []string{"(valuesOf : List Entry → List Entry → List Entry)"}
+	names := []string{"valuesOf"}
+	for _, f := range fields {
+		t.kinds[f.key] = f.kind
+		ps = append(ps, "("+leanName(f.key)+" : "+leanTypeOfKind[f.kind]+")")
+		names = append(names, leanName(f.key))
+	}
+	for _, loc := range []struct{ name, kind string }{{"newItems", "omap"}, {"otherHeads", "omap"}, {"size", "int"}} {
+		t.kinds[loc.name] = loc.kind
+		ps = append(ps, "("+leanName(loc.name)+" : "+leanTypeOfKind[loc.kind]+")")
+		names = append(names, leanName(loc.name))
+	}
+	t.params, t.pnames = ps, names
+	var vars []string
+	for _, v := range t.ordered(assignedOuter(region)) {
+		if strings.HasPrefix(v, r+".") {
+			vars = append(vars, v)
+		}
+	}
+	var tys []string
+	for _, v := range vars {
+		tys = append(tys, leanTypeOfKind[t.kinds[v]])
+	}
+	tup := tupleOf(vars)
+	body := strings.Join(strings.Fields(t.block(region, "(some "+tup+")", false)), " ")
+	return fmt.Sprintf("def %s %s : Option (%s) :=\n  %s\n", name, strings.Join(ps, " "), strings.Join(tys, " × "), body)
+}
+
 func findMethod(f *ast.File, name string) *ast.FuncDecl {
 	for _, d := range f.Decls {
 		if fd, ok := d.(*ast.FuncDecl); ok && fd.Name.Name == name && fd.Recv != nil {
@@ -1485,11 +1775,15 @@ func renderSlices(repo string) map[string]string {
 		{"Traverse", []job{{"log.go", []string{"traverse"}}}},
 		{"Join", []job{{"log.go", []string{"difference"}}}},
 		{"Fetcher", []job{{"entry/fetcher.go", []string{"updateClock", "addNextEntry"}}}},
+		{"JoinTail", []job{{"log.go", []string{"Join@join.publish"}}}},
 	}
 	out := map[string]string{}
 	for _, g := range groups {
 		t := &tr2{fset: token.NewFileSet()}
 		var b strings.Builder
+		if g.name == "JoinTail" {
+			b.WriteString("import Generated.GenHeads\nimport Generated.GenMisc\n")
+		}
 		b.WriteString("import Model.GoPrelude\nimport Generated.Sorting\n/-! GENERATED by harness/cmd/extract/translate2.go from the Go source — do not edit.\n    What the code says, as Lean definitions (group " + g.name + "). -/\nnamespace Generated.Go\nopen Model Model.Go\n\n")
 		for _, j := range g.jobs {
 			f, err := parser.ParseFile(t.fset, filepath.Join(repo, j.file), nil, parser.SkipObjectResolution)
@@ -1498,6 +1792,15 @@ func renderSlices(repo string) map[string]string {
 				continue
 			}
 			for _, n := range j.names {
+				if i := strings.Index(n, "@"); i > 0 {
+					fd := findMethod(f, n[:i])
+					if fd == nil || fd.Body == nil {
+						t.errs = append(t.errs, "method "+n[:i]+" not found in "+j.file)
+						continue
+					}
+					fmt.Fprintf(&b, "/-- `%s` after the hook %s (%s) -/\n%s\n", n[:i], n[i+1:], j.file, t.regionDecl(fd, lowerFirst(n[:i])+"Tail", n[i+1:]))
+					continue
+				}
 				fd := findFunc(f, n)
 				if fd == nil {
 					fd = findMethod(f, n)
